@@ -339,7 +339,12 @@ def unicode_cases():
     for n in UNI_NAMES:
         m = mojibake(n)
         low = ''.join(chr(ord(ch) & 0xff) if ord(ch) < 0x10000 else '?' for ch in n)     # the code units truncated to 8 bits
-        cats = [clean_cat(x) for x in (n, m, n[:-1], n[1:], n + 'x', low, 'x', n + n)]
+        u = [int(hx(n)[i:i + 4], 16) for i in range(0, len(hx(n)), 4)]                    # UTF-16 code units
+        k = next(i for i, x in enumerate(u) if x > 0x7f)
+        hi = unhx(''.join('%04x' % (x ^ 0x100 if i == k else x) for i, x in enumerate(u)))   # same low byte, other high byte
+        k = max(i for i, x in enumerate(u) if x > 0x7f)
+        lo = unhx(''.join('%04x' % (x ^ 1 if i == k else x) for i, x in enumerate(u)))       # neighbouring code unit
+        cats = [clean_cat(x) for x in (n, m, n[:-1], n[1:], n + 'x', low, 'x', n + n, hi, lo)]
         out.append((n + '=false', cats))
         out.append(('*=false;' + n + '=true', cats))
         out.append((n + '.debug=false\n' + n + '.critical=false', cats))
